@@ -75,10 +75,17 @@ func c05(c *h.Ctx) {
 				tk[i] = tk[unnamed[r.Intn(len(unnamed))]]
 			}
 		}
+		// a stage may run another pipeline instead of a task - the same one as a sibling stage, or one that a sibling's
+		// pipeline includes in turn (a diamond of inclusions): that says nothing about depends_on
+		nested := r.Chance(35)
+		usesNested := false
 		for _, i := range order {
 			st := gen.OM{{K: "name", V: nm[i]}, {K: "task", V: tk[i]}}
 			if nm[i] == tk[i] {
 				st = gen.OM{{K: "task", V: tk[i]}}
+			} else if nested && r.Chance(50) {
+				st = gen.OM{{K: "name", V: nm[i]}, {K: "pipeline", V: []string{"inner", "inner", "leaf"}[r.Intn(3)]}}
+				usesNested = true
 			}
 			var dl []interface{}
 			for _, d := range deps[i] {
@@ -116,6 +123,11 @@ func c05(c *h.Ctx) {
 				pipes.Set(fmt.Sprintf("other%d", k), []interface{}{gen.OM{{K: "name", V: "o1"}, {K: "task", V: "t"}}, gen.OM{{K: "name", V: "o2"}, {K: "task", V: "t"}, {K: "depends_on", V: []interface{}{"o1"}}}})
 			}
 		}
+		if usesNested {
+			pipes.Set("leaf", []interface{}{gen.OM{{K: "name", V: "l1"}, {K: "task", V: "t"}}})
+			pipes.Set("inner", []interface{}{gen.OM{{K: "name", V: "i1"}, {K: "pipeline", V: "leaf"}}, gen.OM{{K: "name", V: "i2"}, {K: "pipeline", V: "leaf"}, {K: "depends_on", V: []interface{}{"i1"}}}})
+			c.Count("cli_pipelines_with_inclusions", 1)
+		}
 		cfg := gen.OM{{K: "tasks", V: tasks}, {K: "pipelines", V: pipes}}
 		dir := caseDir(c, fmt.Sprintf("g%d", i))
 		defer os.RemoveAll(dir)
@@ -137,6 +149,14 @@ func c05(c *h.Ctx) {
 			c.Violate("cyclic-accepted", "CLI: a cyclic pipeline was accepted", cas)
 		case !rejected:
 			got := parseDot(string(res.Stdout))
+			if usesNested {
+				// the drawing shows included pipelines with their own edges: those are theirs, not p's
+				for e := range got {
+					if e == "i1->i2" {
+						delete(got, e)
+					}
+				}
+			}
 			want := map[string]bool{}
 			for x := range deps {
 				for _, d := range deps[x] {
